@@ -388,7 +388,7 @@ impl Scenario {
                 let rate = 1200.0 * 1.22 / (rtt as f64 / 1e6 * p.sqrt());
                 cap = cap.min((rate * BUDGET_US as f64 / 1e6) as u64);
             }
-            let total: u64 = self.flows().iter().filter(|f| f.1 == from).map(|f| f.2).sum();
+            let total = self.total_bytes(from);
             if total > cap && total > 0 {
                 for s in self.streams.iter_mut() {
                     if s.opener == from {
